@@ -1,5 +1,6 @@
 import CifModel.Model.ParserTrace
 import CifModel.Lemmas.ParserConsistent
+import CifModel.Lemmas.ParserValues
 /-
   Lemmas/ParserTrace — the instrumented parser of Model/ParserTrace.lean IS the parser of Model/Parser.lean with a trace:
 
@@ -22,9 +23,11 @@ open CifModel CifModel.Model CifModel.Model.Lexer CifModel.Gen.ErrCodes
 @[simp] theorem bindT_eq {α β} (m : PT α) (f : α → PT β) : (m >>= f) = PT.bind m f := rfl
 
 /-- what every recorded call satisfies by construction: cif_container_set_value is only recorded under a valid data name (the C
-    function refuses any other: CIF_INVALID_ITEMNAME) -/
+    function refuses any other: CIF_INVALID_ITEMNAME), and the values handed to the store contain no number object
+    (Lemmas/ParserValues: what parse_value returns) -/
 def SOp.wf : SOp → Prop
-  | .setVal _ n _ => isValidName true n = true
+  | .setVal _ n v => isValidName true n = true ∧ numbFree v = true
+  | .addPkt _ vals => ∀ v ∈ vals, numbFree v = true
   | _ => True
 
 /-- the target is the replay of the trace so far, and every recorded call is well-formed -/
@@ -101,6 +104,25 @@ theorem SimHT.liftP {α} {pre : Cif → Prop} (m : P α) (hcif : ∀ c0 : Cif, P
     refine ⟨rfl, rfl, ?_⟩
     simp only [Good] at hg ⊢
     rw [h1]; exact hg
+
+/-- … with what the production returns -/
+theorem SimHT.liftPR {α} {pre : Cif → Prop} {Q : α → Prop} (m : P α) (hcif : ∀ c0 : Cif, Pres (fun c => c = c0) m) (hret : Ret Q m) :
+    SimHT o pre0 pre (Parser.liftP m) m (fun a c => pre c ∧ Q a) := by
+  constructor
+  intro pol wt hg hp
+  have h1 := (SimHT.liftP (o := o) (pre0 := pre0) (pre := pre) m hcif).run pol wt hg hp
+  cases hA : Parser.liftP m pol wt with
+  | ok a wt1 =>
+    cases hB : m pol wt.w with
+    | ok a' w1 =>
+      rw [hA, hB] at h1
+      obtain ⟨rfl, h2, h3, h4⟩ := h1
+      exact ⟨rfl, h2, h3, h4, hret.run pol wt.w a w1 hB⟩
+    | abort r' w1 => rw [hA, hB] at h1; exact h1.elim
+  | abort r wt1 =>
+    cases hB : m pol wt.w with
+    | ok a' w1 => rw [hA, hB] at h1; exact h1.elim
+    | abort r' w1 => rw [hA, hB] at h1; exact h1
 
 theorem SimHT.getCif {pre : Cif → Prop} : SimHT o pre0 pre (Parser.liftP Parser.getCif) Parser.getCif (fun a c => a = c ∧ pre c) :=
   ⟨fun _ wt hg hp => ⟨rfl, rfl, hg, rfl, hp⟩⟩
@@ -191,7 +213,7 @@ macro_rules
 
 /-! ### the store operations -/
 
-theorem setValue_sim (o : Opts) (pre0 : Cif) (path : Path) (name : Str) (v : V) :
+theorem setValue_sim (o : Opts) (pre0 : Cif) (path : Path) (name : Str) (v : V) (hnf : numbFree v = true) :
     Sim o pre0 (setValueT o path name v) (setValue o path name v) := by
   unfold setValueT setValue
   by_cases hv : isValidName true name = true
@@ -203,7 +225,7 @@ theorem setValue_sim (o : Opts) (pre0 : Cif) (path : Path) (name : Str) (v : V) 
     simp only [Good, replay, List.foldr_cons, SOp.apply, setValueC, List.mem_cons] at hg ⊢
     refine ⟨by rw [← hg.1], ?_⟩
     rintro x (rfl | hx)
-    · exact hv
+    · exact ⟨hv, hnf⟩
     · exact hg.2 x hx
   · simp only [hv, Bool.not_false, if_true, bind_eq, pure_eq]
     constructor
@@ -211,7 +233,7 @@ theorem setValue_sim (o : Opts) (pre0 : Cif) (path : Path) (name : Str) (v : V) 
     simp only [Parser.liftP, P.bind, Parser.fail]
     exact ⟨by first | rfl | trivial, by first | rfl | trivial, hg⟩
 
-theorem addPacket_sim (o : Opts) (pre0 : Cif) (loopAt : Option Path) (p : List V) :
+theorem addPacket_sim (o : Opts) (pre0 : Cif) (loopAt : Option Path) (p : List V) (hp : ∀ v ∈ p, numbFree v = true) :
     Sim o pre0 (addPacketT o loopAt p) (addPacket o loopAt p) := by
   cases loopAt with
   | none => exact Sim.pure _
@@ -223,7 +245,7 @@ theorem addPacket_sim (o : Opts) (pre0 : Cif) (loopAt : Option Path) (p : List V
     simp only [Good, replay, List.foldr_cons, SOp.apply, List.mem_cons] at hg ⊢
     refine ⟨by rw [← hg.1], ?_⟩
     rintro x (rfl | hx)
-    · exact trivial
+    · exact hp
     · exact hg.2 x hx
 
 /-- a recorded call against the original's `setCif`, the target being known -/
@@ -253,26 +275,120 @@ attribute [local irreducible] parseValue listLoop tableLoop tableEntry nextTok P
 theorem parseItem_sim (o : Opts) (pre0 : Cif) (fuel : Nat) (s : PS) (cont : Option Path) (name : Option Str) :
     Sim o pre0 (parseItemT o fuel s cont name) (parseItem o fuel s cont name) := by
   unfold parseItemT parseItem
-  have hs := setValue_sim o pre0
-  cases name <;> cases cont <;> simp only [bind_eq, pure_eq, bindT_eq, pureT_eq] <;> simq [hs]
+  have hstore : ∀ (path : Path) (n : Str) (y : V × PS), SimHT o pre0 (fun _ => True ∧ numbFree y.1 = true)
+      (PT.bind (setValueT o path n y.1) fun _ => PT.pure y.2) (P.bind (setValue o path n y.1) fun _ => P.pure y.2)
+      (fun _ _ => True) :=
+    fun path n y => SimHT.pull (fun hy => Sim.bind (setValue_sim o pre0 path n y.1 hy) (fun _ => Sim.pure _))
+  have hval : ∀ (path : Path) (n : Str) (s' : PS), Sim o pre0
+      (PT.bind (Parser.liftP (parseValue o fuel s')) fun y => PT.bind (setValueT o path n y.1) fun _ => PT.pure y.2)
+      (P.bind (parseValue o fuel s') fun y => P.bind (setValue o path n y.1) fun _ => P.pure y.2) :=
+    fun path n s' => Sim.of (SimHT.bind (SimHT.liftPR _ (fun _ => by keepq) (parseValue_numbFree o fuel s')) (fun y => hstore path n y))
+  cases name with
+  | none => cases cont <;> simp only [bind_eq, pure_eq, bindT_eq, pureT_eq] <;> simq []
+  | some n =>
+    cases cont with
+    | none => simp only [bind_eq, pure_eq, bindT_eq, pureT_eq]; simq []
+    | some path =>
+      simp only [bind_eq, pure_eq, bindT_eq, pureT_eq]
+      apply Sim.bind (Sim.liftP _ (fun _ => by keepq))
+      rintro ⟨t, s1⟩
+      simp only []
+      apply Sim.ite
+      · apply Sim.bind (Sim.liftP _ (fun _ => by keepq))
+        intro _
+        exact hval path n _
+      · apply Sim.ite
+        · exact hval path n _
+        · apply Sim.bind (Sim.liftP _ (fun _ => by keepq))
+          intro _
+          exact Sim.of (SimHT.bind (SimHT.pure (post := fun y _ => True ∧ numbFree y.1 = true) _ (fun _ _ => ⟨trivial, rfl⟩))
+            (fun y => hstore path n y))
+
+theorem numbFree_snoc (cur : List V) (v : V) (b : Bool) (hcur : ∀ x ∈ cur, numbFree x = true) (hv : numbFree v = true) :
+    ∀ x ∈ (if b = true then cur ++ [v] else cur), numbFree x = true := by
+  intro x hx
+  split at hx
+  · rcases List.mem_append.mp hx with h | h
+    · exact hcur x h
+    · simp only [List.mem_singleton] at h; subst h; exact hv
+  · exact hcur x hx
 
 theorem packetsLoop_sim (o : Opts) (pre0 : Cif) (loopAt : Option Path) (slots : List (Option Str)) :
-    ∀ (fuel : Nat) (s : PS) (k : Pk), Sim o pre0 (packetsLoopT o loopAt slots fuel s k) (packetsLoop o loopAt slots fuel s k) := by
+    ∀ (fuel : Nat) (s : PS) (k : Pk), (∀ x ∈ k.cur, numbFree x = true) →
+      Sim o pre0 (packetsLoopT o loopAt slots fuel s k) (packetsLoop o loopAt slots fuel s k) := by
   intro fuel
   induction fuel with
-  | zero => intro s k; rw [packetsLoopT, packetsLoop]; exact Sim.liftP _ (fun _ => by keepq)
+  | zero => intro s k _; rw [packetsLoopT, packetsLoop]; exact Sim.liftP _ (fun _ => by keepq)
   | succ fuel ih =>
-    intro s k
+    intro s k hcur
     rw [packetsLoopT, packetsLoop]
     simp only [bind_eq, pure_eq, bindT_eq, pureT_eq]
-    have ha := addPacket_sim o pre0 loopAt
-    simq [ha, ih]
+    apply Sim.bind (Sim.liftP _ (fun _ => by keepq))
+    rintro ⟨t, s1⟩
+    simp only []
+    have hval : ∀ s2 : PS, Sim o pre0
+        (PT.bind (Parser.liftP (parseValue o fuel s2)) fun x =>
+          if (k.idx + 1) % slots.length = 0 then
+            (addPacketT o loopAt (if (slots.getD k.idx none).isSome = true then k.cur ++ [x.fst] else k.cur)).bind
+              fun _ => packetsLoopT o loopAt slots fuel x.snd { idx := 0, some := true, cur := [] }
+          else
+            packetsLoopT o loopAt slots fuel x.snd
+              { idx := (k.idx + 1) % slots.length, some := k.some,
+                cur := if (slots.getD k.idx none).isSome = true then k.cur ++ [x.fst] else k.cur })
+        (P.bind (parseValue o fuel s2) fun x =>
+          if (k.idx + 1) % slots.length = 0 then
+            (addPacket o loopAt (if (slots.getD k.idx none).isSome = true then k.cur ++ [x.fst] else k.cur)).bind
+              fun _ => packetsLoop o loopAt slots fuel x.snd { idx := 0, some := true, cur := [] }
+          else
+            packetsLoop o loopAt slots fuel x.snd
+              { idx := (k.idx + 1) % slots.length, some := k.some,
+                cur := if (slots.getD k.idx none).isSome = true then k.cur ++ [x.fst] else k.cur }) := by
+      intro s2
+      refine Sim.of (post := fun _ _ => True) (SimHT.bind (SimHT.liftPR _ (fun _ => by keepq) (parseValue_numbFree o fuel s2)) ?_)
+      rintro ⟨v, s3⟩
+      apply SimHT.pull
+      intro hv
+      have hcur' := numbFree_snoc k.cur v (slots.getD k.idx none).isSome hcur hv
+      apply Sim.ite
+      · exact Sim.bind (addPacket_sim o pre0 loopAt _ hcur') (fun _ => ih _ _ (by intro x hx; cases hx))
+      · exact ih _ _ hcur'
+    apply Sim.ite
+    · apply Sim.ite
+      · apply Sim.bind (Sim.liftP _ (fun _ => by keepq))
+        intro _
+        apply Sim.bind (Sim.pure _)
+        intro s2
+        exact hval s2
+      · apply Sim.bind (Sim.pure _)
+        intro s2
+        exact hval s2
+    · apply Sim.ite
+      · apply Sim.bind (Sim.liftP _ (fun _ => by keepq))
+        intro _
+        exact ih _ k hcur
+      · apply Sim.ite
+        · apply Sim.bind (Sim.liftP _ (fun _ => by keepq))
+          intro _
+          apply Sim.bind
+          · apply addPacket_sim
+            intro x hx
+            rcases List.mem_append.mp hx with h | h
+            · exact hcur x h
+            · simp only [List.mem_map] at h
+              obtain ⟨_, _, rfl⟩ := h
+              rfl
+          · intro _
+            exact Sim.pure _
+        · simq []
 
 theorem parseLoop_sim (o : Opts) (pre0 : Cif) (fuel : Nat) (s : PS) (cont : Option Path) :
     Sim o pre0 (parseLoopT o fuel s cont) (parseLoop o fuel s cont) := by
   unfold parseLoopT parseLoop
   simp only [bind_eq, pure_eq, bindT_eq, pureT_eq]
-  have hpk := packetsLoop_sim o pre0
+  have hpk : ∀ (la : Option Path) (slots : List (Option Str)) (s : PS), Sim o pre0
+      (packetsLoopT o la slots fuel s { idx := 0, some := false, cur := [] })
+      (packetsLoop o la slots fuel s { idx := 0, some := false, cur := [] }) :=
+    fun la slots s => packetsLoop_sim o pre0 la slots fuel s _ (by intro x hx; cases hx)
   apply Sim.bind (Sim.liftP _ (fun _ => by keepq))
   rintro ⟨slots, s1⟩
   simp only []
